@@ -96,10 +96,13 @@ def spec_source(spec):
         w = c.get("weight")
         if c["abstract"]:
             style = c.get("style", "abc")
-            if w is not None:
+            below = c.get("weight_below_abstract", False)      # decorator order: @abstract above @weight, or the reverse
+            if w is not None and not (below and (style == "decorator" or c["parent"])):
                 lines.append(f"@weight({w!r})")
             if style == "decorator" or c["parent"]:
                 lines.append("@abstract")
+                if w is not None and below:
+                    lines.append(f"@weight({w!r})")
                 lines.append(f"class {c['name']}({c['parent']}):" if c["parent"] else f"class {c['name']}:")
             else:
                 lines.append(f"class {c['name']}(ABC):")
@@ -297,6 +300,8 @@ def gen_spec(R, feats, gid="g"):
         for c in classes:
             if c["parent"] and R.random() < 0.6:
                 c["weight"] = R.choice([0, 1, 2, 6, 0.5, 0.1, 0.25, 0.3])
+                if c["abstract"] and R.random() < 0.5:
+                    c["weight_below_abstract"] = True
         # never all-zero under one non-terminal (normalisation would divide by zero)
         for a in abstracts:
             ps = [c for c in classes if c["parent"] == a]
@@ -448,6 +453,21 @@ POSTPONED = [
                        ("f", ("ann", ("base", "float"), ("FloatRange", -1.5, 2.0)))]),
         _c("R2", "R", [("i", ("ann", ("base", "int"), ("IntList", [2, 3, 5]))), ("r", ("sym", "R"))])]},
 ]
+
+
+def declared_from_spec(decl, spec):
+    """overwrite the reflected weights / abstract flags of a projected declaration with what the spec (the text the classes
+    were generated from) says: the decorators store them in the same per-class dict the library reads"""
+    for c in spec["classes"]:
+        d = decl["classes"].get(c["name"])
+        if d is None:
+            continue
+        d["abstract"] = bool(c["abstract"])
+        if "weight" in c:
+            d["hasw"], d["w"] = True, int(round(c["weight"] * 10000))
+        else:
+            d["hasw"], d["w"] = False, 10000
+    return decl
 
 
 def fixed_specs():
